@@ -63,8 +63,72 @@ def build_serve_manifest(variant, i):
     return {'env': env, 'old_env': dict(env), 'call': call}
 
 
+def build_serve_patch(i):
+    import datetime
+    import html
+    import logging
+    import math
+    from fractions import Fraction
+    b = lambda k: bool(i[k])
+    g = lambda k: int(i[k])
+
+    class Opts(NS):
+        def update(self, **kw):
+            self.__dict__.update(kw)
+
+        def remove_unused_parameters(self, mode):
+            pass
+    seen = {}
+
+    def calc(**kw):
+        seen['mode'] = kw.get('mode')
+        if b('bad_options'):
+            raise ValueError('bad')
+        return Opts(patch=b('opt_patch'), segmentTimeline=b('opt_timeline'))
+    captured = {}
+
+    def render(name, **ctx):
+        captured.update(options=ctx['options'], opt=ctx['original_publish_time'])
+        return 'BODY'
+
+    def create_context(**kw):
+        d = dict(kw)
+        if b('has_mup'):
+            d['minimumUpdatePeriod'] = Fraction(g('mup_num'), g('mup_den'))
+        return d
+    feats = set()
+    if b('feat_patch'):
+        feats.add('patch')
+    if b('feat_timeline'):
+        feats.add('segmentTimeline')
+    mft = NS(features=feats, restrictions={'mode': {'live', 'vod'} if b('mode_live_allowed') else {'vod'}})
+    fl = NS(request=NS(args={}), make_response=lambda *a: NS(args=a), render_template=render)
+    if g('publish_s') > 4 * 10**9:
+        raise ValueError('timestamp out of range for a native datetime')
+    fn = extract_method('dashlive/server/requesthandler/manifest_requests.py', 'ServePatch', 'get', {
+        'flask': fl, 'logging': logging, 'html': html, 'math': math, 'datetime': datetime, 'UTC': lambda: datetime.timezone.utc,
+        'current_manifest': mft, 'current_stream': NS(title='t'), 'primary_profiles': {}, 'ManifestContext': lambda **kw: NS(**kw),
+        'PatchTemplateContext': object, 'cast': lambda t, v: v, 'add_allowed_origins': lambda h, methods=None: None})
+    me = NS(calculate_options=calc, create_context=create_context)
+    EPOCH = datetime.datetime(1970, 1, 1, tzinfo=datetime.timezone.utc)
+    env = {k: b(k) for k in ('bad_options', 'opt_patch', 'opt_timeline', 'feat_timeline', 'feat_patch', 'mode_live_allowed', 'has_mup')}
+    env.update(mup_num=g('mup_num'), mup_den=g('mup_den'), publish_s=g('publish_s'),
+               max_age_is=lambda h, v: h.get('Cache-Control') == f'max-age={v}',
+               micros=lambda dt: (dt - EPOCH) // datetime.timedelta(microseconds=1))
+
+    def call():
+        r = fn(me, 'stream', 'name', g('publish_s'))
+        a = r.args
+        if isinstance(a[0], tuple):
+            return NS(status=a[0][1], kind='patch', body=NS(options=captured['options'], original_publish_time=captured['opt']), headers=a[0][2])
+        return NS(status=a[1], kind='error')
+    return {'env': env, 'old_env': dict(env), 'call': call}
+
+
 def build(key, variant, i):
     qual = key.split(':')[1]
+    if qual == 'ServePatch.get':
+        return build_serve_patch(i)
     if qual == 'ServeManifest.get':
         return build_serve_manifest(variant, i)
     if qual.endswith('calculate_injected_error_segments'):
